@@ -1201,7 +1201,7 @@ where
         let mut guard = 0;
         while self.slots[w].as_ref().unwrap().model.len() < N && guard < N + 2 {
             let model = &self.slots[w].as_ref().unwrap().model;
-            let Some(k) = (0..lim).map(|i| (i + a % self.univ) % lim).find(|r| !model.contains_key(r)) else { break };
+            let Some(k) = (0..lim as u16).map(|i| ((i + (a % self.univ) as u16) % lim as u16) as u8).find(|r| !model.contains_key(r)) else { break };
             self.op_insert_k(w, O_INSERT, k);
             guard += 1;
             if self.cx.failed() {
@@ -1216,7 +1216,7 @@ where
         if had_removal || N == 0 {
             self.cx.bump(S::overflow_probes_after_removal);
         }
-        let absent = (0..lim).map(|i| (i + b) % lim).find(|r| !model.contains_key(r));
+        let absent = (0..lim as u16).map(|i| ((i + b as u16) % lim as u16) as u8).find(|r| !model.contains_key(r));
         let present = model.keys().nth(b as usize % N.max(1)).copied();
         if let Some(k) = absent {
             for ep in [O_INSERT, O_REPLACE] {
